@@ -94,7 +94,11 @@ impl ConnBuffer {
         loop {
             let nread = reader.read_line(&mut self.line)?;
             if nread == 0 {
-                todo!()
+                // there is no header: the input is empty or consists of blank lines only
+                return self.ctx.err(BuildFailure::SplitFormatError {
+                    original: String::new(),
+                    field: "left_num",
+                });
             }
             self.ctx.add_line(1);
             if !EMPTY_LINE.is_match(&self.line) {
